@@ -237,7 +237,7 @@ def _gen_ham_op(rng: Rng, cfg, generic=False):
             if not any(p):
                 p[1] = 1.0
             return {'op': 'ham', 'model': 'fermi', 'params': p}
-        return {'op': 'ham', 'model': which, 'sub': rng.sub(), 'structure': rng.pick(['dense', 'sym', 'sparse'])}
+        return {'op': 'ham', 'model': which, 'sub': rng.sub(), 'structure': rng.pick(['dense', 'sym', 'sparse'] if not generic else ['dense', 'sym'])}
     if fam == 'ising':
         p = [par(), par(), par()]
         if not any(p):
